@@ -10,10 +10,10 @@ Lemma update_post f s s' :
   let id := fid f in let s0 := mutated f s in
   Inv s -> In id (store s) -> upd s0 s' -> CoreV s' -> FocusOk s' ->
   (forall x, x <> id -> (In x (raw_ids s') <-> In x (raw_ids s))) ->
-  (In id (raw_ids s') <-> fmatches (filt s) f = true) ->
+  (In id (raw_ids s') <-> shows s f = true) ->
   (forall o k, cache_of s' id o = Some k -> k = generate o f \/
-     (cache_of s id o = Some k /\ (o <> okey s \/ ~ In id (raw_ids s) \/ fmatches (filt s) f = false))) ->
-  Inv s' /\ (M3 s -> marked_ok s (Update f) -> M3 s') /\ (Fresh s -> fresh_ok s (Update f) -> Fresh s').
+     (cache_of s id o = Some k /\ (o <> okey s \/ ~ In id (raw_ids s) \/ shows s f = false))) ->
+  Inv s' /\ (M3 s -> M3 s') /\ (Fresh s -> fresh_ok s (Update f) -> Fresh s').
 Proof.
   intros id s0 I Hst U C F Hm Hid Hc. pose proof (u_cfg _ _ U) as Cf.
   assert (At : forall x, attr s' x = if N.eqb id x then f else attr s x).
@@ -28,13 +28,13 @@ Proof.
   - constructor; auto.
     + intros x H. rewrite St. destruct (u_ids _ _ U _ H) as [H1|H1]; [apply (i_sids _ I); exact H1 | exact H1].
     + intros x H. rewrite Fl. destruct (N.eq_dec x id) as [->|Hne].
-      * rewrite Atid. apply Hid. exact H.
+      * rewrite Atid. apply Hid in H. apply shows_true in H. apply H.
       * rewrite Atne by exact Hne. apply (i_m1 _ I). apply Hm; assumption.
     + intros x H Hw. rewrite St in H. unfold wanted in Hw. rewrite Fl, Sm in Hw. destruct (N.eq_dec x id) as [->|Hne].
-      * rewrite Atid in Hw. apply Hid. apply andb_true_iff in Hw. tauto.
+      * rewrite Atid in Hw. apply Hid. unfold shows. destruct (show_marked s), (fmarked f); exact Hw.
       * rewrite Atne in Hw by exact Hne. apply Hm; [exact Hne|]. apply (i_m2 _ I); assumption.
-  - intros H3 Hg Hs x H. rewrite Sm in Hs. destruct (N.eq_dec x id) as [->|Hne].
-    + rewrite Atid. apply Hg; auto. apply Hid. exact H.
+  - intros H3 Hs x H. rewrite Sm in Hs. destruct (N.eq_dec x id) as [->|Hne].
+    + rewrite Atid. apply Hid in H. apply shows_true in H. apply H. exact Hs.
     + rewrite Atne by exact Hne. apply H3; [exact Hs|]. apply Hm; assumption.
   - intros Fr Hg x o k H. destruct (N.eq_dec x id) as [->|Hne].
     + rewrite Atid. destruct (Hc _ _ H) as [H1|[H1 H2]]; [exact H1|].
@@ -72,22 +72,22 @@ Proof.
       + apply (i_focus _ I).
       + intros x H. rewrite Atne by (apply Ne, Vst, H). apply (i_m1 _ I). exact H.
       + intros x H Hw. unfold wanted in Hw. rewrite Atne in Hw by (apply Ne, H). apply (i_m2 _ I); assumption.
-    - intros H3 _ Hs x H. rewrite Atne by (apply Ne, Vst, H). apply H3; assumption.
+    - intros H3 Hs x H. rewrite Atne by (apply Ne, Vst, H). apply H3; assumption.
     - intros Fr _ x o k H. change (cache_of s0 x o) with (cache_of s x o) in H.
       rewrite Atne; [apply Fr; exact H|]. apply Ne, (i_sids _ I).
       unfold cache_of in H. destruct (sget (settings s) x) eqn:Es; [|discriminate]. eapply sget_ids; eauto.
     - change (log s0) with (log s). rewrite L. apply n_done. reflexivity. }
   apply memN_In in Em. change (store s0) with (store s) in Em.
   rewrite bind_ret_r. msimp.
-  rewrite Atid. change (filt s0) with (filt s).
+  rewrite Atid. change (shows s0 f) with (shows s f).
   assert (Fin : forall s', (exists l, log s' = l /\ notif (raw_ids s) l (raw_ids s')) ->
-            (Inv s' /\ (M3 s -> marked_ok s (Update f) -> M3 s') /\ (Fresh s -> fresh_ok s (Update f) -> Fresh s')) ->
+            (Inv s' /\ (M3 s -> M3 s') /\ (Fresh s -> fresh_ok s (Update f) -> Fresh s')) ->
             post (Update f) s s').
   { intros s' (l & <- & Hn) (A & B & D). split; [exact A | split; [exact B | split; [exact D | exact Hn]]]. }
   assert (Chain : forall t, upd s0 t -> forall o k, cache_of t id o = Some k ->
             cache_of s id o = Some k \/ k = generate o f).
   { intros t Ut o k H. destruct (u_new _ _ Ut _ _ _ H) as [H1|[_ H1]]; [left; exact H1 | right; rewrite H1, Atid; reflexivity]. }
-  destruct (fmatches (filt s) f) eqn:Emf.
+  destruct (shows s f) eqn:Emf.
   - destruct (view_contains_spec id s0 C0) as (b & s1 & E1 & X1 & Hb). rewrite (bind_ok _ _ _ _ _ E1).
     assert (C1 : CoreV s1) by (apply (CoreV_updm s0 s1); [apply (e_updm _ _ X1) | apply (e_view _ _ X1) | exact C0]).
     assert (R1 : raw_ids s1 = raw_ids s) by (unfold raw_ids; rewrite (e_view _ _ X1); reflexivity).
